@@ -55,9 +55,9 @@ theorem openChild_ok (st : MS) (last : Bool) (c : Frame) (st' : MS) (h : openChi
     · cases h; simp
 
 theorem attach_ok (cfg : Cfg) (c p : Frame) (rest : List Frame) (reps : List Rep) (st' : MS)
-    (h : attach cfg c p rest reps = .ok st') :
+    (h : attachChild cfg c p rest reps = .ok st') :
     st'.stack.length = rest.length + 1 ∧ (st'.reps = reps ∨ ∃ r, st'.reps = reps ++ [r]) ∧ (cfg.dbg = false → st'.reps = reps) := by
-  unfold attach at h
+  unfold attachChild at h
   split at h
   · have := report_ok _ _ _ _ h
     refine ⟨by simp [this.1], ?_, ?_⟩
